@@ -54,13 +54,14 @@ func propsOf(o *Obligation, ct *Contract) []string {
 		return o.Props
 	}
 	kind := o.Kind
+	set := map[string]bool{}
 	if ct != nil && ct.Tags != nil {
 		if t, ok := ct.Tags[kind]; ok {
 			return t
 		}
 		if kind != "safety" && kind != "frame" {
-			if t, ok := ct.Tags["support"]; ok {
-				return t
+			for _, p := range ct.Tags["support"] {
+				set[p] = true
 			}
 		}
 	}
@@ -70,11 +71,12 @@ func propsOf(o *Obligation, ct *Contract) []string {
 	case "frame":
 		return []string{"C09", "C18"}
 	}
-	// support obligations inherit the union of the properties of the function's own clauses
+	// support obligations (proof cuts, lemma premises, callee preconditions, loop invariants):
+	// every postcondition of the function is proved under the facts they establish, so they
+	// count for the union of the properties of the function's own clauses (plus the tags)
 	if ct == nil {
-		return nil
+		return sortedKeys(set)
 	}
-	set := map[string]bool{}
 	for _, c := range ct.Ensures {
 		for _, p := range c.Props {
 			set[p] = true
